@@ -28,6 +28,7 @@ ASSUMPTIONS = ['mido.ports.sleep is replaced by a counting fake that plays scrip
                'an IOPort whose inner device closes itself while the wrapper stays open is not asserted (unspecified)',
                'random.shuffle inside multi_receive is replaced by the identity']
 
+LAST_TAGS = set()
 RESET = [m.bytes() for m in ports_mod.reset_messages()] if hasattr(ports_mod, 'reset_messages') else []
 RESET_REF = [[0xB0 | ch, cc, 0] for ch in range(16) for cc in (123, 121)]
 PANIC_REF = [[0xB0 | ch, 120, 0] for ch in range(16)]
@@ -211,6 +212,7 @@ class Interp:
         self.kind = self.w.kind
         self.fails = []
         self.nt = False
+        self.tags = set()
         self._closed_with_queue = False
 
     def _fail(self, clause, detail, **facts):
@@ -275,6 +277,7 @@ class Interp:
         w.mclosed = True
         if pending:
             self._closed_with_queue = True
+            self.tags.add('close-with-messages-queued')
 
     def step(self, op):
         w = self.w
@@ -292,7 +295,9 @@ class Interp:
             w.apply(['eof', 0])
             if pending:
                 self.nt = True
+                self.tags.add('self-close-with-messages-pending')
         elif kind == 'fail_sends':
+            self.tags.add('device-send-failure-injected')
             if not w.devs:
                 return
             di = op[1] % len(w.devs)
@@ -390,9 +395,11 @@ class Interp:
             res, sleeps = self._call(port.receive, real_script)
             if want[0] == 'msg':
                 self._cmp_msg('receive', res, want[1], sleeps, want[2])
+                self.tags.add('blocking-receive-waited' if want[2] >= 1 else 'blocking-receive-immediate')
                 if want[2] >= 1 or self._closed_with_queue:
                     self.nt = True
             else:
+                self.tags.add('blocking-receive-on-closed-or-closing')
                 if res[0] == 'budget':
                     self._fail('blocks-forever', 'blocking receive on a closed / closing port never returned')
                 elif res[0] != 'exc' or not isinstance(res[1], (OSError, ValueError)):
@@ -428,6 +435,7 @@ class Interp:
                     self._fail('sleep-count', f'iteration slept {sleeps} times, script needs {ticks}')
                 if want:
                     self.nt = True
+                self.tags.add('iteration-ended-by-closure')
             self._flush_unplayed(real_script)
         elif kind == 'close':
             self._m_close()
@@ -471,6 +479,7 @@ class Interp:
 
 
 def run_case(case):
+    LAST_TAGS.clear()
     if case['kind'] == 'server':
         # a PortServer (MultiPort over accepted socket ports): blocking receive with a message waiting in a sub-port
         from checks import c18_sockets as C18
@@ -484,6 +493,7 @@ def run_case(case):
     for d in it.w.devs:
         d.closed = True
     it.w.port.closed = True
+    LAST_TAGS.update(it.tags)
     return it.fails
 
 
@@ -552,6 +562,14 @@ def make_machine(kind, autoreset):
         def eof(self):
             self.ops.append(['eof'])
 
+        @rule(pre=st.lists(SPLIT, max_size=2), di=st.integers(0, 1), data=ARR, then_eof=st.booleans())
+        def wait_for_message(self, pre, di, data, then_eof):
+            # a blocking receive that has to sit through some ticks (partial bytes first) until a whole message is there
+            acts = [['arrive', di, p] for p in pre] + [['arrive', di, data]] + ([['eof']] if then_eof else [])
+            self.ops.append(['iter_pending'])
+            self.ops.append(['script', acts])
+            self.ops.append(['receive'])
+
         @rule(di=st.integers(0, 1), k=st.sampled_from([0, 1, 5, 31, 32, 40]))
         def device_starts_failing(self, di, k):
             self.ops.append(['fail_sends', di, k])
@@ -562,7 +580,7 @@ def make_machine(kind, autoreset):
             self.ops.append(['script', acts])
 
         def teardown(self):
-            unknown = _CTX.run({'kind': kind, 'autoreset': autoreset, 'ops': self.ops})
+            unknown = _CTX.run_tagged({'kind': kind, 'autoreset': autoreset, 'ops': self.ops})
             if unknown:
                 raise Violation(unknown[0]['sig'])
 
